@@ -463,6 +463,54 @@ func (h *c07H) op() {
 		h.steps = append(h.steps, "(C07.HOp OFlush)")
 		h.cls["op-flush"] = true
 		h.trace("flush")
+	case k < 75:
+		// the periodic rotation check as a whole (checkAndRotate), with an
+		// interval that makes every existing file due (1 ns) or none (a day)
+		ivl := time.Nanosecond
+		if r.Bool() {
+			ivl = timeutil.Day
+		}
+		for time.Now().UnixNano() <= h.lastNS+1 {
+		}
+		var saved time.Duration
+		func() {
+			l.confMu.Lock()
+			defer l.confMu.Unlock()
+			saved, l.conf.RotationIvl = l.conf.RotationIvl, ivl
+		}()
+		l.checkAndRotate(h.ctx)
+		now := time.Now().UnixNano()
+		func() {
+			l.confMu.Lock()
+			defer l.confMu.Unlock()
+			l.conf.RotationIvl = saved
+		}()
+		// the property's reading: the file is rotated iff it exists and its
+		// first record is at least the interval old
+		first := int64(0)
+		for _, x := range h.recs {
+			if x.where == 1 && (first == 0 || x.ns < first) {
+				first = x.ns
+			}
+		}
+		switch {
+		case first == 0:
+			h.cls["check-rotate-missing-file"] = true
+		case first+int64(ivl) <= now:
+			h.cls["check-rotate-due"] = true
+			for _, x := range h.recs {
+				if x.where == 2 {
+					x.where = -1
+					h.cls["rotate-ages-out"] = true
+				} else if x.where == 1 {
+					x.where = 2
+				}
+			}
+		default:
+			h.cls["check-rotate-not-due"] = true
+		}
+		h.steps = append(h.steps, vfApp("C07.HCheckRot", vfZ(int64(ivl)), vfZ(now)))
+		h.trace("checkAndRotate with interval %v", ivl)
 	case k < 80:
 		if err := l.rotate(h.ctx); err != nil {
 			h.t.Fatal(err)
